@@ -49,6 +49,7 @@ type Report struct {
 	Yields         int
 	PointerKeyMaps []string
 	Broken         map[string][]string // packages that did not type-check (SkipBroken): path -> errors
+	ConcRewrites   int                 // go statements, selects, channel sends/receives rewritten for the scheduler (generated code)
 	GoStmts        []string            // `go` statements in the rewritten packages: concurrency the simulator does not schedule
 }
 
@@ -98,7 +99,7 @@ var uncontrolledTable = map[string]map[string]bool{
 		"Int64": true, "Int32": true, "Int64N": true, "Int32N": true, "UintN": true},
 }
 
-var syncTable = map[string]string{"Mutex": "Mutex", "RWMutex": "RWMutex", "Once": "Once"}
+var syncTable = map[string]string{"Mutex": "Mutex", "RWMutex": "RWMutex", "Once": "Once", "WaitGroup": "WaitGroup"}
 
 func Run(o Options) (*Report, error) {
 	rep := &Report{WorldCalls: map[string]int{}, Uncontrolled: map[string]int{}}
@@ -357,6 +358,16 @@ func rewriteFile(o Options, rep *Report, p *packages.Package, f *ast.File) (bool
 		}
 	}
 
+	// ---- T5: concurrency of the code under simulation (generated containers): goroutines it starts
+	// become tasks of the scheduler, channel operations that would block keep the task schedulable
+	if o.Yield {
+		if k := rewriteConcurrency(f, info); k > 0 {
+			rep.ConcRewrites += k
+			needSched = true
+			changed = true
+		}
+	}
+
 	// ---- T4: yields
 	if o.Yield {
 		n := 0
@@ -452,6 +463,141 @@ func rewriteRange(rs *ast.RangeStmt, site string, n int) {
 	rs.Body.List = append(pro, rs.Body.List...)
 }
 
+// rewriteConcurrency (generated code only):
+//
+//	go f(a, b)                  ->  { a0, a1 := a, b; sched.Go(func() { f(a0, a1) }) }      (go func(){..}() -> sched.Go(func(){..}))
+//	select { cases } (no default) ->  L: select { cases; default: sched.Poll(); goto L }
+//	<-ch   (outside a select's comm clause)  ->  sched.Recv(ch)      v, ok := <-ch -> sched.Recv2(ch)
+//	ch <- v                     ->  sched.Send(ch, v)
+//	for v := range ch { B }     ->  for { v, ok := sched.Recv2(ch); if !ok { break }; B }
+func rewriteConcurrency(f *ast.File, info *types.Info) int {
+	n := 0
+	label := 0
+	isChan := func(e ast.Expr) bool {
+		t := info.TypeOf(e)
+		if t == nil {
+			return false
+		}
+		_, ok := t.Underlying().(*types.Chan)
+		return ok
+	}
+	// comm clause statements must stay as they are: remember them
+	comm := map[ast.Node]bool{}
+	ast.Inspect(f, func(nd ast.Node) bool {
+		if cc, ok := nd.(*ast.CommClause); ok && cc.Comm != nil {
+			comm[cc.Comm] = true
+			switch c := cc.Comm.(type) {
+			case *ast.ExprStmt:
+				comm[c.X] = true
+			case *ast.AssignStmt:
+				for _, r := range c.Rhs {
+					comm[r] = true
+				}
+			}
+		}
+		return true
+	})
+	astutil.Apply(f, func(c *astutil.Cursor) bool {
+		return !comm[c.Node()] || true
+	}, func(c *astutil.Cursor) bool {
+		switch x := c.Node().(type) {
+		case *ast.GoStmt:
+			call := x.Call
+			if fl, ok := call.Fun.(*ast.FuncLit); ok && len(call.Args) == 0 {
+				c.Replace(&ast.ExprStmt{X: &ast.CallExpr{Fun: sel(schedName, "Go"), Args: []ast.Expr{fl}}})
+				n++
+				return true
+			}
+			var lhs, tmps []ast.Expr
+			for i := range call.Args {
+				id := ast.NewIdent("goarg__" + strconv.Itoa(label) + "_" + strconv.Itoa(i))
+				lhs = append(lhs, id)
+				tmps = append(tmps, id)
+			}
+			label++
+			var stmts []ast.Stmt
+			if len(call.Args) > 0 && !call.Ellipsis.IsValid() {
+				stmts = append(stmts, &ast.AssignStmt{Lhs: lhs, Tok: token.DEFINE, Rhs: call.Args})
+				call = &ast.CallExpr{Fun: call.Fun, Args: tmps}
+			}
+			body := &ast.BlockStmt{List: []ast.Stmt{&ast.ExprStmt{X: call}}}
+			stmts = append(stmts, &ast.ExprStmt{X: &ast.CallExpr{Fun: sel(schedName, "Go"), Args: []ast.Expr{&ast.FuncLit{Type: &ast.FuncType{Params: &ast.FieldList{}}, Body: body}}}})
+			c.Replace(&ast.BlockStmt{List: stmts})
+			n++
+		case *ast.SelectStmt:
+			hasDefault := false
+			for _, cl := range x.Body.List {
+				if cc, ok := cl.(*ast.CommClause); ok && cc.Comm == nil {
+					hasDefault = true
+				}
+			}
+			if hasDefault {
+				return true
+			}
+			if _, labelled := c.Parent().(*ast.LabeledStmt); labelled {
+				return true // a labelled select (target of a break): left alone
+			}
+			label++
+			l := ast.NewIdent("sel__" + strconv.Itoa(label))
+			x.Body.List = append(x.Body.List, &ast.CommClause{Body: []ast.Stmt{
+				&ast.ExprStmt{X: &ast.CallExpr{Fun: sel(schedName, "Poll"), Args: []ast.Expr{&ast.BasicLit{Kind: token.STRING, Value: strconv.Quote("select")}}}},
+				&ast.BranchStmt{Tok: token.GOTO, Label: l},
+			}})
+			c.Replace(&ast.LabeledStmt{Label: l, Stmt: x})
+			n++
+		case *ast.SendStmt:
+			if comm[x] {
+				return true
+			}
+			c.Replace(&ast.ExprStmt{X: &ast.CallExpr{Fun: sel(schedName, "Send"), Args: []ast.Expr{x.Chan, x.Value}}})
+			n++
+		case *ast.UnaryExpr:
+			if x.Op != token.ARROW || comm[x] {
+				return true
+			}
+			fn := "Recv"
+			if as, ok := c.Parent().(*ast.AssignStmt); ok && len(as.Lhs) == 2 && len(as.Rhs) == 1 {
+				fn = "Recv2"
+			}
+			if vs, ok := c.Parent().(*ast.ValueSpec); ok && len(vs.Names) == 2 && len(vs.Values) == 1 {
+				fn = "Recv2"
+			}
+			c.Replace(&ast.CallExpr{Fun: sel(schedName, fn), Args: []ast.Expr{x.X}})
+			n++
+		case *ast.RangeStmt:
+			if !isChan(x.X) {
+				return true
+			}
+			label++
+			ok := ast.NewIdent("ok__ch" + strconv.Itoa(label))
+			var key ast.Expr = ast.NewIdent("_")
+			tok := token.DEFINE
+			if x.Key != nil {
+				key = x.Key
+				if x.Tok == token.ASSIGN {
+					// v, ok = ...: ok must exist
+					tok = token.DEFINE
+					tmp := ast.NewIdent("v__ch" + strconv.Itoa(label))
+					recv := &ast.AssignStmt{Lhs: []ast.Expr{tmp, ok}, Tok: token.DEFINE, Rhs: []ast.Expr{&ast.CallExpr{Fun: sel(schedName, "Recv2"), Args: []ast.Expr{x.X}}}}
+					brk := &ast.IfStmt{Cond: &ast.UnaryExpr{Op: token.NOT, X: ok}, Body: &ast.BlockStmt{List: []ast.Stmt{&ast.BranchStmt{Tok: token.BREAK}}}}
+					set := &ast.AssignStmt{Lhs: []ast.Expr{key}, Tok: token.ASSIGN, Rhs: []ast.Expr{tmp}}
+					x.Body.List = append([]ast.Stmt{recv, brk, set}, x.Body.List...)
+					c.Replace(&ast.ForStmt{Body: x.Body})
+					n++
+					return true
+				}
+			}
+			recv := &ast.AssignStmt{Lhs: []ast.Expr{key, ok}, Tok: tok, Rhs: []ast.Expr{&ast.CallExpr{Fun: sel(schedName, "Recv2"), Args: []ast.Expr{x.X}}}}
+			brk := &ast.IfStmt{Cond: &ast.UnaryExpr{Op: token.NOT, X: ok}, Body: &ast.BlockStmt{List: []ast.Stmt{&ast.BranchStmt{Tok: token.BREAK}}}}
+			x.Body.List = append([]ast.Stmt{recv, brk}, x.Body.List...)
+			c.Replace(&ast.ForStmt{Body: x.Body})
+			n++
+		}
+		return true
+	})
+	return n
+}
+
 func yieldStmt(site string) ast.Stmt {
 	return &ast.ExprStmt{X: &ast.CallExpr{
 		Fun:  sel(schedName, "Yield"),
@@ -498,6 +644,11 @@ func insertYields(body *ast.BlockStmt, fn string) int {
 			}
 		case *ast.LabeledStmt:
 			doStmt(x.Stmt)
+		case *ast.SelectStmt:
+			for _, c := range x.Body.List {
+				cc := c.(*ast.CommClause)
+				cc.Body = doList(cc.Body)
+			}
 		}
 		// function literals inside the statement (closures passed to the runtime)
 		ast.Inspect(s, func(nd ast.Node) bool {
